@@ -224,6 +224,10 @@ func VPH_C19_refused_keeps_global() {
 	abuserTokens := vpF64("abuser-ip-tokens")
 	vpAssume(vpAnd(abuserTokens >= 0, abuserTokens <= 1))
 	rl.perIPLimiter.limiters["6.6.6.6"] = &TokenBucket{tokens: abuserTokens, maxTokens: 1, refillRate: 1, lastRefill: vpAt(t0)}
+	// ... and so does its connection's bucket: the refusal may come from either of the client's own limits
+	connTokens := vpF64("abuser-conn-tokens")
+	vpAssume(vpAnd(connTokens >= 0, connTokens <= 1))
+	rl.perConnectionLimiter.Store("conn-x", &TokenBucket{tokens: connTokens, maxTokens: 1, refillRate: 1, lastRefill: vpAt(t0)})
 	vpSetClock(tn)
 	// what the global bucket holds at tn if nobody takes anything
 	idle := rl.globalLimiter.Tokens()
